@@ -74,6 +74,11 @@ def load_corpus():
     return out
 
 
+def _run_script(script):
+    import semcheck
+    return semcheck.run_bash(script, timeout=20)
+
+
 def run(res, b, tier, seed):
     rng = random.Random(seed * 7919 + 11)
     pr = common.prove("C11")
@@ -145,6 +150,44 @@ def run(res, b, tier, seed):
         cls, payload = c.out.get("AST", ("MISSING", ""))
         if cls != "OK" or ("(int %d)" % c.meta["value"]) not in payload:
             oracle_fail.append(("number-literal-value", c.files["main.tsh"], (cls, payload[:200]), ("OK", "... (int %d) ..." % c.meta["value"])))
+    # the text the lexer gets is the FILE's text, byte for byte (only CR LF counts as LF): characters that an editor or a reader might
+    # "normalise" - a lone carriage return, form feed, vertical tab, NUL, a byte order mark - inside string literals, raw literals and
+    # comments, and between tokens; through the whole front end, main file and imported file (round 8: C11-B, line ends "normalised"
+    # where the source file is read)
+    import semcheck
+    fcases = []
+    for nm, ch in (("CR", b"\r"), ("FF", b"\x0c"), ("VT", b"\x0b"), ("DEL", b"\x7f"), ("NBSP", b"\xc2\xa0"), ("BOM", b"\xef\xbb\xbf"),
+                   ("NEL", b"\xc2\x85"), ("LS", b"\xe2\x80\xa8")):
+        n = len(ch)
+        fcases += [
+            (nm + "-in-string", b's := "ab' + ch + b'cd"\nprint(len(s))\n', b"%d\n" % (4 + n)),
+            (nm + "-in-raw-string", b"t := `x" + ch + b"y`\nprint(len(t))\n", b"%d\n" % (2 + n)),
+            (nm + "-in-line-comment", b'print("one") // remark' + ch + b'print("two")\nprint("three")\n', b"one\nthree\n"),
+            (nm + "-in-block-comment", b"/* a" + ch + b"b */ print(1)\n", b"1\n"),
+            (nm + "-between-statements", b'print("first")' + ch + b'print("second")\n', None),
+            (nm + "-at-end-of-file", b"print(1)" + ch, None),
+            (nm + "-at-start-of-file", ch + b"print(1)\n", None),
+        ]
+    fc = []
+    for nm, src, want in fcases:
+        fc.append(pipeline.Case("f-" + nm, {"main.tsh": src}, meta=dict(want=want, src=src, where="main file")))
+        if want is not None:
+            fc.append(pipeline.Case("fi-" + nm, {"main.tsh": b'import l "lib.tsh"\n', "lib.tsh": src}, meta=dict(want=want, src=src, where="imported file")))
+    pipeline.run_pipe(b, fc, "as")
+    pipeline.model_parse(b, fc)
+    runnable = [c for c in fc if c.out.get("BASH", ("", ""))[0] == "OK"]
+    for c, r in zip(runnable, common.pmap_proc(_run_script, [bytes.fromhex(c.out["BASH"][1]) for c in runnable])):
+        c.meta["stdout"] = r["stdout"]
+    for c in fc:
+        cls = c.out.get("BASH", ("MISSING", ""))[0]
+        if c.meta["model_ast"] != pipeline.impl_ast_canon(c):
+            disagreements.append(("file-text:" + c.id, c.meta["src"], pipeline.impl_ast_canon(c)[:300], c.meta["model_ast"][:300]))
+        if c.meta["want"] is None:
+            if cls != "ERR":
+                oracle_fail.append(("file-text:" + c.id + " (" + c.meta["where"] + ")", c.meta["src"], (cls, c.meta.get("stdout", b"").decode("latin1")), ("ERR", "a character outside the token grammar between tokens")))
+        elif cls != "OK" or c.meta.get("stdout") != c.meta["want"]:
+            oracle_fail.append(("file-text:" + c.id + " (" + c.meta["where"] + ")", c.meta["src"], (cls, c.meta.get("stdout", b"").decode("latin1")), ("OK", c.meta["want"].decode("latin1"))))
+    res.coverage["file_text_cases"] = len(fc)
     res.coverage["number_literal_values"] = len(lcases)
     res.coverage["oracle_failures"] = len(oracle_fail)
     res.assumptions += ["Go's regexp/strconv behave as modelled by the hand-written scanners (validated only through the differential run)",
